@@ -46,6 +46,11 @@ func GetFilesWithFilter(codeDir string, filter func(path string) bool) []string 
 			return nil
 		}
 
+		// only files are listed: a directory may carry a selected extension too (.gradle, generated.java)
+		if fi == nil || fi.IsDir() {
+			return nil
+		}
+
 		if filter(path) {
 			files = append(files, path)
 		}
